@@ -2,3 +2,4 @@ import Generated.ConvertTables
 import Generated.Colors
 import Generated.Latex
 import Generated.Constants
+import Generated.Fonts
